@@ -2,6 +2,7 @@ pub mod common;
 pub mod c01;
 pub mod c02;
 pub mod c03;
+pub mod c04;
 pub mod c12;
 
 use crate::engine::Engine;
@@ -11,6 +12,7 @@ pub fn lookup(id: &str) -> Option<(&'static str, fn(&Engine))> {
         "C01" => ("C01", c01::run),
         "C02" => ("C02", c02::run),
         "C03" => ("C03", c03::run),
+        "C04" => ("C04", c04::run_prop),
         "C12" => ("C12", c12::run),
         _ => return None,
     })
